@@ -618,7 +618,52 @@ type WrapCall struct {
 // RecCrypto wraps the real crypto service and records the key-wrap calls of the packers.
 type RecCrypto struct {
 	cryptoapi.Crypto
-	Wraps []WrapCall
+	Wraps   []WrapCall
+	Unwraps []UnwrapCall
+}
+
+// UnwrapCall is one recorded Crypto.UnwrapKey call.
+type UnwrapCall struct {
+	Alg       string
+	HasSender bool
+	OK        bool
+}
+
+// UnwrapKey records and forwards.
+func (r *RecCrypto) UnwrapKey(recWK *cryptoapi.RecipientWrappedKey, kh interface{},
+	opts ...cryptoapi.WrapKeyOpts) ([]byte, error) {
+	o := cryptoapi.NewOpt()
+	for _, f := range opts {
+		f(o)
+	}
+
+	c := UnwrapCall{HasSender: o.SenderKey() != nil}
+	if recWK != nil {
+		c.Alg = recWK.Alg
+	}
+
+	key, err := r.Crypto.UnwrapKey(recWK, kh, opts...)
+	c.OK = err == nil
+	r.Unwraps = append(r.Unwraps, c)
+
+	return key, err
+}
+
+// CoqAttempts prints the recorded UnwrapKey calls as a list of the model's attempt records.
+func (r *RecCrypto) CoqAttempts() string {
+	items := make([]string, 0, len(r.Unwraps))
+	for _, c := range r.Unwraps {
+		b := func(x bool) string {
+			if x {
+				return "true"
+			}
+
+			return "false"
+		}
+		items = append(items, "mkatt "+b(strings.Contains(strings.ToUpper(c.Alg), "1PU"))+" "+b(c.HasSender)+" "+b(c.OK))
+	}
+
+	return "(Some [" + strings.Join(items, "; ") + "])"
 }
 
 // WrapKey records and forwards.
